@@ -172,6 +172,10 @@ func PESHeader(packet *Packet) ([]byte, error) {
 // Header Returns a slice containing the Packer Header.
 func Header(packet *Packet) []byte {
 	start := payloadStart(packet)
+	if start > len(packet) {
+		// adaptation_field_length runs past the packet: the whole packet is header
+		start = len(packet)
+	}
 	return packet[:start]
 }
 
